@@ -114,6 +114,41 @@ var c08Families = []c08Family{
 	{"cbe-media-many-chunks", false, func(n int) []byte { return c08Chunked([]byte{0x7f, 0xf3, 0x03, 'a', '/', 'b'}, n, 2, 0xaa) }, 65536},
 	{"cbe-u16-array-many-chunks", false, func(n int) []byte { return c08ChunkedElems([]byte{0x7f, 0xe1}, n, 2, 2) }, 65536},
 	{"cbe-bit-array-many-chunks", false, func(n int) []byte { return c08ChunkedElems([]byte{0x94}, n, 8, 1) }, 65536},
+	// one big array-like value followed by many small ones (a per-value cost that depends on the biggest value seen so far is quadratic here)
+	{"cte-big-string-then-small-strings", true, func(n int) []byte {
+		var sb strings.Builder
+		sb.WriteString("c0 [\"" + strings.Repeat("x", n/2) + "\"")
+		for sb.Len() < n {
+			sb.WriteString(" \"a\"")
+		}
+		sb.WriteString("]")
+		return []byte(sb.String())
+	}, 0},
+	{"cte-big-array-then-small-arrays", true, func(n int) []byte {
+		var sb strings.Builder
+		sb.WriteString("c0 [@u8x[" + strings.Repeat("7f ", n/6) + "]")
+		for sb.Len() < n {
+			sb.WriteString(" @u8x[1]")
+		}
+		sb.WriteString("]")
+		return []byte(sb.String())
+	}, 0},
+	{"cbe-big-string-then-small-strings", false, func(n int) []byte {
+		d := append([]byte{0x81, 0, 0x9a, 0x90}, c08Uleb(uint64(n/2)<<1)...)
+		d = append(d, bytes.Repeat([]byte("x"), n/2)...)
+		for len(d) < n {
+			d = append(d, 0x81, 'a', 0x90, 0x02, 'b')
+		}
+		return append(d, 0x9b)
+	}, 0},
+	{"cbe-big-array-then-small-arrays", false, func(n int) []byte {
+		d := append([]byte{0x81, 0, 0x9a, 0x93}, c08Uleb(uint64(n/2)<<1)...)
+		d = append(d, bytes.Repeat([]byte{0x55}, n/2)...)
+		for len(d) < n {
+			d = append(d, 0x93, 0x02, 0x01, 0x7f, 0xe1, 0x02, 0x01, 0x02)
+		}
+		return append(d, 0x9b)
+	}, 0},
 	{"cbe-many-markers", false, func(n int) []byte {
 		d := []byte{0x81, 0, 0x9a}
 		for i := 0; len(d) < n; i++ {
